@@ -1,4 +1,6 @@
 """C01 -- model coordinates consistent, one metric (G1, D1, I1, U1)."""
+from ..rules import degree_rules as DG
+from ..rules import misc_rules as MI
 from ..rules import dtype_rules as DT
 from ..rules import hyp_rules as H
 from ..rules import chart_rules as C
@@ -33,6 +35,9 @@ def run(ctx):
     ctx.do(SH.rule_hom1, parts=("hyp",), only={"Point.coords", "Point.distance", "Point.kleinian_coords", "Point.poincare_coords", "Point.halfspace_coords", "Point.hyperboloid_coords", "None.kleinian_coords", "None.hyperboloid_coords"}, min_proved=8)
     ctx.do(PR.rule_fr1, setter=False)
     ctx.do(SI.rule_zd1)
+    ctx.do(DG.rule_hd1)
+    ctx.do(MI.rule_enum1, [H.HYP])
+    ctx.do(MI.rule_rng1, only={"Point.distance"})
     ctx.do(DT.rule_lk1, [H.HYP], scope=ctx.scope(ENTRIES))
     ctx.do(SH.rule_ax1, [SH.CORE, H.HYP], scope=ctx.scope(ENTRIES))
     ctx.do(u1, ENTRIES, min_functions=15)
